@@ -125,12 +125,30 @@ structure Config where
 def projLevel (p : String) : Nat :=
   if p = "api" then 0 else if p = "image" then 1 else if p = "writes" then 2 else 3
 
-/-- oracle hook: (property, history header, op text, impl image before, impl image after, impl op, session cfg) → messages -/
-abbrev Oracle := String → String → ImplOp → Img → Img → List String
+/-- what an oracle sees of one completed operation -/
+structure OpView where
+  prop : String                 -- property under check (`--prop`)
+  header : String               -- the `H` line of the history
+  scenario : String
+  cfgArgs : List String         -- the `cfg` tokens (`strict=1` …)
+  io : ImplOp                   -- what the implementation did (op text, writes/flushes, fault, counts, result, rows)
+  before : Img                  -- the implementation's image before the operation
+  after : Img                   -- … and after it
+  /-- pending 32-byte directory-entry records of live handles according to the MODEL session (absolute offset, bytes);
+      `none` when the model is no longer following the implementation in this history -/
+  overlay : Option (List (Nat × List Nat))
 
-structure Hist where
+/-- property oracles evaluated on the implementation's own behaviour, with per-history state `σ` -/
+structure OracleDef (σ : Type) where
+  init : String → σ                                   -- from the `H` line
+  step : σ → OpView → σ × List String                 -- messages: "<Cxx> <signature> <detail>"
+
+structure Hist (σ : Type) where
   header : String := ""
   id : String := ""
+  scenario : String := ""
+  cfgArgs : List String := []
+  ost : σ
   sess : Session
   implImg : Img
   pendingFault : Option Nat := none
@@ -226,16 +244,27 @@ def compareOp (cfg : Config) (model : ApiRes) (mdev : Dev) (mimgAfter implAfter 
       | none => none
     else none
 
-structure Ctx where
+structure Ctx (σ : Type) where
   cfg : Config
-  oracle : Oracle
+  oracle : OracleDef σ
+
+/-- dirty editors of the model's live handles -/
+def overlayOf (s : Session) : List (Nat × List Nat) :=
+  let fromFile (f : FileH) : Option (Nat × List Nat) :=
+    match f.entry with
+    | some e => if e.dirty then some (e.pos, e.data.serialize) else none
+    | none => none
+  (s.files.toList.filterMap fun (_, f) => fromFile f) ++
+  (s.dirs.toList.filterMap fun (_, d) => match d with
+    | .file f => fromFile f
+    | .root _ => none)
 
 def report (st : Stats) (cfg : Config) (line : String) : IO Stats := do
   if st.reported < cfg.maxReport then IO.println line
   return { st with reported := st.reported + 1 }
 
 /-- finish the current operation of a history -/
-def finishOp (ctx : Ctx) (st : Stats) (h : Hist) (io : ImplOp) : IO (Stats × Hist) := do
+def finishOp {σ : Type} (ctx : Ctx σ) (st : Stats) (h : Hist σ) (io : ImplOp) : IO (Stats × Hist σ) := do
   let cfg := ctx.cfg
   let toks := io.text.splitOn " "
   let parsed := parseOp toks
@@ -282,7 +311,12 @@ def finishOp (ctx : Ctx) (st : Stats) (h : Hist) (io : ImplOp) : IO (Stats × Hi
         h := { h with sess := s1, tracking := io.fault.isNone ∧ h.pendingFault.isNone }
   h := { h with pendingFault := none }
   -- property oracles on the implementation's own behaviour
-  for msg in ctx.oracle cfg.prop h.header io implBefore implAfter do
+  let view : OpView := { prop := cfg.prop, header := h.header, scenario := h.scenario, cfgArgs := h.cfgArgs, io := io,
+                         before := implBefore, after := implAfter,
+                         overlay := if h.tracking then some (overlayOf h.sess) else none }
+  let (ost, msgs) := ctx.oracle.step h.ost view
+  h := { h with ost := ost }
+  for msg in msgs do
     if st.oreported < cfg.maxReport then
       IO.println s!"ORACLE {msg} || {h.header} op {io.seq} {io.text}"
     st := { st with oracle := st.oracle + 1, oreported := st.oreported + 1 }
@@ -290,19 +324,20 @@ def finishOp (ctx : Ctx) (st : Stats) (h : Hist) (io : ImplOp) : IO (Stats × Hi
 
 def stripNl (line : String) : String := (line.dropEndWhile (fun c => c = '\n' || c = '\r')).toString
 
-partial def loop (ctx : Ctx) (inp : IO.FS.Stream) (st : Stats) (h? : Option Hist) : IO Stats := do
+partial def loop {σ : Type} (ctx : Ctx σ) (inp : IO.FS.Stream) (st : Stats) (h? : Option (Hist σ)) : IO Stats := do
   let line ← inp.getLine
   if line.isEmpty then return st
   let line := stripNl line
   let toks := line.splitOn " "
   match toks, h? with
-  | "H" :: id :: _, _ =>
+  | "H" :: id :: scen :: _, _ =>
     loop ctx inp { st with hists := st.hists + 1, hashes := st.hashes }
-      (some { header := line, id := id, sess := newSession ctx.cfg 0, implImg := Img.empty 0 })
+      (some { header := line, id := id, scenario := scen, ost := ctx.oracle.init line,
+              sess := newSession ctx.cfg 0, implImg := Img.empty 0 })
   | ["dev", sz], some h =>
     let n := sz.toNat?.getD 0
     loop ctx inp st (some { h with sess := newSession ctx.cfg n, implImg := Img.empty n })
-  | "cfg" :: args, some h => loop ctx inp st (some { h with sess := applyCfg ctx.cfg h.sess args })
+  | "cfg" :: args, some h => loop ctx inp st (some { h with sess := applyCfg ctx.cfg h.sess args, cfgArgs := args })
   | ["fault", k], some h => loop ctx inp st (some { h with pendingFault := k.toNat? })
   | "O" :: seq :: rest, some h =>
     loop ctx inp st (some { h with cur := some { seq := seq, text := " ".intercalate rest } })
@@ -370,7 +405,7 @@ def upperPath : List String → Option String
   | _ :: rest => upperPath rest
   | [] => none
 
-def run (args : List String) (oracle : Oracle) : IO UInt32 := do
+def run {σ : Type} (args : List String) (oracle : OracleDef σ) : IO UInt32 := do
   let mut cfg := parseArgs args {}
   if let some p := upperPath args then
     cfg := { cfg with upper := (← loadUpper p) }
